@@ -160,7 +160,7 @@ fn eval_in_child(c: &Case, dir: &PathBuf) -> Eval {
         }
     }
     if over == 3 {
-        ev.fail = Some(Fail::new(format!("c08:late|{}|{}", PLACES[c.place], WEIGHTS[c.weight]), format!("{tag}, weight {}, limit {} ms: the timeout arrived after {last} ms (3 of 3 runs beyond the bound of {} ms)\n{src}", WEIGHTS[c.weight], c.limit_ms, bound_ms(c.limit_ms))));
+        ev.fail = Some(Fail::new(if WEIGHTS[c.weight] == "heavy-native" { format!("c08:late:heavy-native|{}", PLACES[c.place]) } else { format!("c08:late|{}|{}", PLACES[c.place], WEIGHTS[c.weight]) }, format!("{tag}, weight {}, limit {} ms: the timeout arrived after {last} ms (3 of 3 runs beyond the bound of {} ms)\n{src}", WEIGHTS[c.weight], c.limit_ms, bound_ms(c.limit_ms))));
     }
     ev
 }
